@@ -177,6 +177,14 @@ Definition meet_piv (a b : piv) : piv :=
   | NV, NV => NV
   end.
 
+(* X.680 50.8: a serially applied constraint is applied to the parent without its extension marker and additions: the
+   result is extensible exactly when the LAST constraint carries a marker *)
+Definition last_marker (cs : list (flat * bool)) : bool :=
+  match rev cs with
+  | fc :: _ => snd fc || existsb elem_x (fst (fst fc))
+  | [] => false
+  end.
+
 Definition oracle_serial (c : list (flat * bool) * bool * option Z * option Z * bool) : bool :=
   let '(cs, signed, omin, omax, oext) := c in
   if negb (forallb (fun fc => forallb ranges_ok (fst (fst fc))) cs) then true else
@@ -193,8 +201,11 @@ Definition oracle_serial (c : list (flat * bool) * bool * option Z * option Z * 
       else true)
   && match omin, omax with
      | None, None => true
-     | Some 0, None => if signed then Bool.eqb oext (existsb (fun fc => snd fc || existsb elem_x (fst (fst fc))) cs) else true
-     | _, _ => Bool.eqb oext (existsb (fun fc => snd fc || existsb elem_x (fst (fst fc))) cs)
+     | Some 0, None => if signed then Bool.eqb oext (last_marker cs) else true
+     | _, _ => Bool.eqb oext (last_marker cs)
      end.
+
+(* the reading the implementation follows: extensible when any of the serial constraints carries a marker *)
+Definition any_marker (cs : list (flat * bool)) : bool := existsb (fun fc => snd fc || existsb elem_x (fst (fst fc))) cs.
 
 Definition serial_monotone (c : list (flat * bool)) : bool := forallb (fun fc => ops_monotone (fst fc)) c.
